@@ -134,6 +134,8 @@ def coq_eval(cfg, cases, workdir, tag="gen"):
             f.write(";\n".join("  (" + c["coq"] + ")" for c in shard))
             f.write("\n].\n")
             f.write("Definition M := Eval vm_compute in %s cases.\nPrint M.\n" % cfg["verdicts"])
+            if cfg.get("scope"):
+                f.write("Definition SC := Eval vm_compute in N.of_nat (length (filter %s cases)).\nPrint SC.\n" % cfg["scope"])
         try:
             rc, out = sh(["coqc", "-Q", COQ, "BV", path], cwd=workdir, timeout=1800)
         except subprocess.TimeoutExpired:
@@ -147,6 +149,9 @@ def coq_eval(cfg, cases, workdir, tag="gen"):
         res = {}
         for a, b in re.findall(r"\((\d+),(\d+)\)", body):
             res[int(a)] = int(b)
+        ms = re.search(r"SC\s*=\s*(\d+)", out)
+        if ms:
+            res["scope"] = int(ms.group(1))
         for ext in (".vo", ".vok", ".vos", ".glob"):
             try:
                 os.remove(os.path.join(workdir, name + ext))
@@ -164,7 +169,10 @@ def coq_eval(cfg, cases, workdir, tag="gen"):
                 errors.append(err)
                 continue
             for local, code in res.items():
-                results[k * SHARD + local] = code
+                if local == "scope":
+                    results["scope"] = results.get("scope", 0) + code
+                else:
+                    results[k * SHARD + local] = code
     return results, errors
 
 
